@@ -233,6 +233,10 @@ def run(ctx, eng):
     ctx.ob('PAIR.closed-record', fi.qual, 'cleanup keeps closed_by', bool(ok),
            'a stream removed from `streams` is stored in `_closed_streams` '
            'under its id with its own closed_by' + why, node=fi.node)
+    cm.include(ctx, eng, 'C27', {'OWN.fifo', 'TAB.cap', 'ARITH.evict'},
+               'the record of a reset survives as long as the documented '
+               'bound says: MAX_CLOSED_STREAMS entries, the oldest '
+               'inserted going first')
     ctx.assume('schedules as such are not enumerated; the bound of '
                '_closed_streams is taken as documented')
 
